@@ -12,19 +12,26 @@ TECHNIQUE = ("Coq: small-step interleaving model of handleRequests/handleRequest
              "gated-backend scenarios evaluated with vm_compute")
 LEVEL_TEXT = ("Theorems over ALL interleavings, frame lists and backend behaviours of the model (Loop/Model.v): one reply per accepted request, "
               "reply type, no unsolicited reply, dropped only if the tag was active, tag re-use after ClearTag, contiguous frames, a receiver always "
-              "available, intake never blocked by handlers, progress unless waiting for the backend. Every run re-checks the proofs, re-extracts the "
+              "available, intake never blocked by handlers, progress unless waiting for the backend; fid-table mutex: a table operation never waits for the backend "
+              "(and does, if a backend call is made inside a critical section); capture without the own-tag guard: an own-tag flush is never answered. Every run re-checks the proofs, re-extracts the "
               "order of events and held mutexes of handleRequest from the source and compares it with the table the model was written against, "
               "and runs the real Server.Handle over net.Pipe (and a fragmenting writer) with a gated backend.")
-LEVEL_NOTE = ("True by construction in the model, hence NOT proved but checked on observed frames: a reply carries its request's tag (a reply is its "
-              "request's log entry; tie_calls shows recv's tag is what StartTag/ClearTag/send get), its type is the matching R-type or Rlerror, and no model step "
-              "cancels or duplicates a reply; Loop/Cases.v [solicited] checks tag, type and exactly-once on every observed frame. "
+LEVEL_NOTE = ("True by construction in Loop/Model.v, hence NOT proved there: a reply carries its request's tag (a reply is its "
+              "request's log entry; tie_calls shows recv's tag is what StartTag/ClearTag/send get) and its type is the matching R-type or Rlerror; both are "
+              "checked on every observed frame (Loop/Cases.v [solicited]: tag, type, exactly once). 'No step cancels, duplicates or suppresses a reply' and 'no "
+              "backend call runs outside its handler' are likewise structural in Model.v; Loop/Variants.v widens the model so that they can fail (flags "
+              "v_guard / v_detach / v_suppress + ghost lists), proves them for the flag values the code has (faithful variant = Model.v, sound and complete) and "
+              "refutes the property for each flipped flag; the flag values are tied to the source by capture_guarded, go/timer/chan-send sites and "
+              "reply_path_unconditional. "
               "Trusted: Coq kernel + vm_compute; the hand model is tied to the Go code by LoopGen (syntactic order of events, mutex held, bodies of "
               "StartTag/ClearTag/TagDone/tflush.handle; local identifiers alpha-normalised, so renames do not matter; extracting code of handleRequest into a helper is refused) and by the differential scenarios only; sync.Mutex/channel semantics, sequential consistency; "
               "liveness is 'a server step is enabled' (scheduler fairness assumed). "
-              "The clause 'delays only requests that the File contract orders after it' is covered here for the request loop and fidMu "
-              "(unrelated fids and a second connection while a request sits in ReadAt/GetAttr/Walk/Close of a clunked or replaced fid/Close in another "
-              "connection's stop; a writer queued behind a blocked reader finishes after the release); connections are a product of independent loops "
-              "in the model (Loop/Multi.v); the per-file lock contract itself is C07, server-wide lock order C16.")
+              "The clause 'delays only requests that the File contract orders after it': the request loop is in Model.v; fidMu/tagMu are a separate component model "
+              "(Loop/FidMu.v, not composed with the loop): with critical sections free of blocking calls - generated table of every call made under fidMu/tagMu in "
+              "package p9, compared semantically - a table operation completes in <= 3 server steps with no backend return, and with a backend call inside one every "
+              "other request waits (refutation). Observed: unrelated fids and a second connection while a request sits in ReadAt/GetAttr/Walk/Close of a clunked or "
+              "replaced fid/Close in another connection's stop; a writer queued behind a blocked reader finishes after the release; connections are a product of "
+              "independent loops in the model (Loop/Multi.v); the per-file lock contract itself is C07, server-wide lock order C16.")
 DESIGN_REF = "6/C06"
 ASSUMPTIONS = [
     "sync.Mutex gives mutual exclusion, channel close/receive and sync/atomic are sequentially consistent",
@@ -35,8 +42,9 @@ ASSUMPTIONS = [
 TRUSTED_BASE = [
     "Coq 8.16.1 kernel, vm_compute (cases evaluation); no native_compute",
     "axioms: none (Print Assumptions: closed under the global context for every property theorem)",
-    "go2coq LoopGen (order of events and held mutexes in handleRequest, send sites, bodies of the tag functions)",
+    "go2coq LoopGen (order of events and held mutexes in handleRequest, send sites, bodies of the tag functions, go/timer/chan-send sites of package p9 and its module imports, calls made under fidMu/tagMu)",
     "hand-written model Loop/Model.v, tied by Loop/Tie.v + harness/p9/c06_loop_test.go, vhloop_*_test.go + Loop/Cases.v",
+    "hand-written component model Loop/FidMu.v (programs of critical sections and backend calls), tied by the generated short_sections table only; widened model Loop/Variants.v (ghost lists are specification devices)",
     "the harness' gated, monitored backend, raw frame reader/validator, race-free scenario generator, and the bookkeeping twin that tells the driver how many replies to await in a phase (a wrong twin shows as a hang or as a model mismatch, never as a pass of a wrong reply)",
     "props/C06.py to_case/RTYP: translation of observations into Coq terms (request kind -> matching R-type number)",
 ]
